@@ -280,19 +280,19 @@ Definition h_getset (args : list bytes) : hres :=
   need 2 args (HBody (fun now d =>
     lift (api_getset (a0 args) (a1 args) now d) (fun v d' => ret [obulk v] d'))).
 
-(* MGET writes the array header first: a wrong-typed key leaves a partial array *)
-Fixpoint mget_loop (ks : list bytes) (acc : list wact) (now : Z) (d : db) : bres :=
+(* MGET reads every value first - a key of another type counts as missing - and then writes the array *)
+Fixpoint mget_loop (ks : list bytes) (acc : list (option bytes)) (now : Z) (d : db) : bres :=
   match ks with
-  | [] => BOk acc d
+  | [] => BOk (WArr (Z.of_nat (length acc)) :: map obulk acc) d
   | k :: r =>
       match api_get k now d with
-      | Ok v d1 => mget_loop r (acc ++ [obulk v]) now d1
-      | Panic d1 => BPanic acc d1
+      | Ok v d1 => mget_loop r (acc ++ [v]) now d1
+      | Panic d1 => mget_loop r (acc ++ [None]) now d1
       | Unm => BUnm
       end
   end.
 Definition h_mget (args : list bytes) : hres :=
-  need 1 args (HBody (fun now d => mget_loop args [WArr (nargs args)] now d)).
+  need 1 args (HBody (fun now d => mget_loop args [] now d)).
 
 Definition h_setrange (args : list bytes) : hres :=
   need 3 args
